@@ -523,6 +523,36 @@ def parsedate(datetime_str: str) -> datetime:
 
 ####################################################################
 #
+def quoted(text: Any) -> str:
+    """The text that goes between the double quotes of an IMAP quoted string.
+
+    Inside a quoted string `\\` and `"` must be escaped with a backslash and
+    CR and LF are not allowed at all (they become a space.) Use it as:
+    `f'"{quoted(value)}"'`
+    """
+    return (
+        str(text)
+        .replace("\\", "\\\\")
+        .replace('"', '\\"')
+        .replace("\r", " ")
+        .replace("\n", " ")
+    )
+
+
+####################################################################
+#
+def quoted_bytes(data: bytes) -> bytes:
+    """Like `quoted()` for values we already hold as bytes."""
+    return (
+        data.replace(b"\\", b"\\\\")
+        .replace(b'"', b'\\"')
+        .replace(b"\r", b" ")
+        .replace(b"\n", b" ")
+    )
+
+
+####################################################################
+#
 def oneline(text: Any) -> str:
     """Render `text` for use inside a single-line IMAP response.
 
